@@ -461,6 +461,7 @@ pub fn run(ctx: &Ctx) -> ! {
             "tcp_probe_ConnectionRefused",
             "tcp_probe_TimedOut",
             "established_exchanges",
+            "close_one_end",
             "half_open_connects",
             "half_open_resolved_ok",
             "half_open_resolved_ConnectionRefused",
